@@ -276,6 +276,12 @@ func obsC03List(kind string) string {
 		l = c03Tails
 	case "sp":
 		l = c03Seps
+	case "ps":
+		l = c03ParenSkeletons
+	case "pp":
+		l = c03ParenPrefixes
+	case "tr":
+		l = c03Truncations()
 	}
 	parts := make([]string, len(l))
 	for i, x := range l {
